@@ -327,6 +327,9 @@ func (vc *VC) extFacts(name string, args []Term, r Term, idx int) {
 	case "unicode/utf8.RuneCountInString":
 		vc.assume("true", eq(r.S, app(vc.runeCount(), args[0].S)))
 	case "strings.Contains":
+	case "(reflect.Value).Len", "(reflect.Value).NumField", "(reflect.Type).NumField":
+		// lengths and counts are never negative
+		vc.assume("true", app(">=", r.S, "0"))
 	}
 	if r.Sort == SInt && r.T != nil {
 		if lo, hi, ok := intRange(r.T); ok && !isRefType(r.T) {
